@@ -12,37 +12,56 @@ Definition asm_tool (src : bytes) : option bytes :=
 
 (* hexasm: for every placement/spelling of -o (and the default a.out): status 0 and the binary in the named file
    exactly when the source is accepted; otherwise a diagnostic, status 1 and an untouched file system *)
-Theorem C14_hexasm_status : forall f o fsys src argv,
-  plain f -> (In argv (shapes f o) \/ (argv = [f] /\ o = "a.out")) -> fsys f = Some src ->
+Theorem C14_hexasm_status : forall writable f o fsys src argv,
+  plain f -> (In argv (shapes f o) \/ (argv = [f] /\ o = "a.out")) -> fsys f = Some src -> writable o = true ->
   match asm_tool src with
-  | Some bin => hexasm_main asm_tool argv fsys = ok (fs_set fsys o bin)
-  | None => hexasm_main asm_tool argv fsys = fail fsys
+  | Some bin => hexasm_main writable asm_tool argv fsys = ok (fs_set fsys o bin)
+  | None => hexasm_main writable asm_tool argv fsys = fail fsys
   end.
-Proof. exact (hexasm_status asm_tool). Qed.
+Proof.
+  intros writable f o fsys src argv Hp Ha Hs Hw.
+  pose proof (hexasm_status writable asm_tool f o fsys src argv Hp Ha Hs) as H. rewrite Hw in H. exact H.
+Qed.
 Print Assumptions C14_hexasm_status.
 
 (* xcmp likewise, whatever the compiler accepts *)
-Theorem C14_xcmp_status : forall compile f o fsys src argv,
-  plain f -> (In argv (shapes f o) \/ (argv = [f] /\ o = "a.out")) -> fsys f = Some src ->
+Theorem C14_xcmp_status : forall writable compile f o fsys src argv,
+  plain f -> (In argv (shapes f o) \/ (argv = [f] /\ o = "a.out")) -> fsys f = Some src -> writable o = true ->
   match compile src with
-  | Some bin => xcmp_main compile argv fsys = ok (fs_set fsys o bin)
-  | None => xcmp_main compile argv fsys = fail fsys
+  | Some bin => xcmp_main writable compile argv fsys = ok (fs_set fsys o bin)
+  | None => xcmp_main writable compile argv fsys = fail fsys
   end.
-Proof. exact xcmp_status. Qed.
+Proof.
+  intros writable compile f o fsys src argv Hp Ha Hs Hw.
+  pose proof (xcmp_status writable compile f o fsys src argv Hp Ha Hs) as H. rewrite Hw in H. exact H.
+Qed.
 Print Assumptions C14_xcmp_status.
 
+(* when the file named by -o cannot be written (missing directory, a directory, the empty name) both tools report it:
+   diagnostic, status 1, file system untouched -- whether or not the source was acceptable (the repaired emitBin; the
+   pinned one returned 0 without a binary) *)
+Theorem C14_unwritable_output : forall writable compile f o fsys src argv,
+  plain f -> (In argv (shapes f o) \/ (argv = [f] /\ o = "a.out")) -> fsys f = Some src -> writable o = false ->
+  hexasm_main writable asm_tool argv fsys = fail fsys /\ xcmp_main writable compile argv fsys = fail fsys.
+Proof.
+  intros writable compile f o fsys src argv Hp Ha Hs Hw. split.
+  - pose proof (hexasm_status writable asm_tool f o fsys src argv Hp Ha Hs) as H. rewrite Hw in H. destruct (asm_tool src); exact H.
+  - pose proof (xcmp_status writable compile f o fsys src argv Hp Ha Hs) as H. rewrite Hw in H. destruct (compile src); exact H.
+Qed.
+Print Assumptions C14_unwritable_output.
+
 (* hexsim's exit status is the program's exit value modulo 256 *)
-Theorem C14_status_is_exit_value : forall simulate f fsys bin input v o,
+Theorem C14_status_is_exit_value : forall (simulate : bytes -> bytes -> option (Z * bytes)) f fsys bin input v o,
   plain f -> fsys f = Some bin -> simulate bin input = Some (v, o) ->
   hexsim_main simulate [f] input fsys = {| status := Z.modulo v 256; diagnostic := false; files := fsys; out := o |}.
 Proof. exact hexsim_status_is_exit_value. Qed.
 Print Assumptions C14_status_is_exit_value.
 
 (* xrun = xcmp followed by hexsim on the result *)
-Theorem C14_xrun_is_compose : forall compile simulate f fsys src input,
-  plain f -> fsys f = Some src -> f <> "a.bin" ->
-  let c := xcmp_main compile [f; "-o"; "a.bin"] fsys in
-  let r := xrun_main compile simulate [f] input fsys in
+Theorem C14_xrun_is_compose : forall writable compile simulate f fsys src input,
+  plain f -> fsys f = Some src -> f <> "a.bin" -> writable "a.bin" = true ->
+  let c := xcmp_main writable compile [f; "-o"; "a.bin"] fsys in
+  let r := xrun_main writable compile simulate [f] input fsys in
   match compile src with
   | None => status r = status c /\ diagnostic r = diagnostic c /\ status r <> 0%Z /\ files r = fsys
   | Some bin =>
@@ -57,8 +76,14 @@ Print Assumptions C14_xrun_is_compose.
 Example C14_nonvacuous :
   let fsys := fun n => if String.eqb n "p.S" then Some [76; 68; 65; 67; 32; 49; 10]%Z (* "LDAC 1\n" *)
                        else if String.eqb n "q.S" then Some [76; 68; 65; 67; 10]%Z (* "LDAC\n" *) else None in
-  status (hexasm_main asm_tool ["-o"; "x.bin"; "p.S"] fsys) = 0%Z /\
-  files (hexasm_main asm_tool ["-o"; "x.bin"; "p.S"] fsys) "x.bin" <> None /\
-  status (hexasm_main asm_tool ["q.S"; "-o"; "x.bin"] fsys) = 1%Z /\
-  files (hexasm_main asm_tool ["q.S"; "-o"; "x.bin"] fsys) "x.bin" = None.
+  status (hexasm_main (fun _ => true) asm_tool ["-o"; "x.bin"; "p.S"] fsys) = 0%Z /\
+  files (hexasm_main (fun _ => true) asm_tool ["-o"; "x.bin"; "p.S"] fsys) "x.bin" <> None /\
+  status (hexasm_main (fun _ => true) asm_tool ["q.S"; "-o"; "x.bin"] fsys) = 1%Z /\
+  files (hexasm_main (fun _ => true) asm_tool ["q.S"; "-o"; "x.bin"] fsys) "x.bin" = None.
 Proof. vm_compute. repeat split; discriminate. Qed.
+
+(* the --max-cycles operand as std::stoull reads it *)
+Example C14_stoull_examples :
+  map stoull_ok ["100"; "12abc"; " 7"; "-1"; "+5"; "0x10"; "18446744073709551615"] = [true; true; true; true; true; true; true] /\
+  map stoull_ok ["abc"; ""; "- 5"; "99999999999999999999999"; "18446744073709551616"; "--3"; "x1"] = [false; false; false; false; false; false; false].
+Proof. vm_compute. split; reflexivity. Qed.
